@@ -78,6 +78,7 @@ type Endpoint struct {
 	accepting int
 	Pipes     []*Pipe
 	HoldNew   bool // pipes are created with hold set
+	Wrap      bool // received messages wrap the transport's own buffer (NewMessage(0) + Body = frame), as the WebSocket transport's do
 }
 
 // DialOutcome is the scripted answer to one Dial call.
@@ -420,6 +421,13 @@ func (p *Pipe) Recv() (*mangos.Message, error) {
 	}
 	b := p.inq[0]
 	p.inq = p.inq[1:]
+	if p.ep.Wrap {
+		// what transport/ws does with the frame gorilla hands it: an empty pooled message whose
+		// Body is the frame buffer (its capacity has nothing to do with the message's size class)
+		m := mangos.NewMessage(0)
+		m.Body = b
+		return m, nil
+	}
 	m := mangos.NewMessage(len(b))
 	m.Body = append(m.Body, b...)
 	return m, nil
